@@ -102,7 +102,7 @@ class C13(Sim):
             "polyline split) and >= 1 observation")
     FAULT_KINDS = ["warm", "reject"]
     PROBES = ["polygon_input", "quad_input", "closed_surface", "bordered_surface", "multi_op_block", "second_block", "area_checked", "centre_checked",
-              "input_observed", "result_observed", "volume_block", "polyline_split", "face_centre_split_interior", "sdbet", "int_coordinates", "exception_leaves_block", "boundary_of_refined_volume", "non_list_rows"]
+              "input_observed", "result_observed", "volume_block", "polyline_split", "face_centre_split_interior", "sdbet", "int_coordinates", "exception_leaves_block", "boundary_of_refined_volume", "non_list_rows", "boundary_data_carried_over"]
     QUICK_RUNS = 2500
     THOROUGH_RUNS = 250000
     BLOCK = 20
@@ -338,10 +338,15 @@ class C13(Sim):
             helper.M, helper.PROP = self.M, self.PROP
             orient = {lib_orientation(P, c) > 0 for c in cells}
             helper.cfg["world"]["orient"] = "positive" if orient == {True} else "mixed"
+            # both extractors in every observation (so also BEFORE a block, when the observation warms the caches): the boundary attached
+            # to the volume by enable_boundary_connectivity() must be the one of the mesh as it stands now, not of an earlier state
+            if getattr(mesh, "boundary_connectivity", None) is not None:
+                # boundary data left on the volume by an earlier enable_boundary_connectivity(): either dropped by an edit, or still true
+                self.probes["boundary_data_carried_over"] += 1
+                helper._do_enable(mesh, ref, "carried_boundary", call_enable=False)
             if r.chance(0.5):
                 helper._do_standalone(mesh, ref, "standalone_boundary")
-            else:
-                helper._do_enable(mesh, ref, "enable_boundary")
+            helper._do_enable(mesh, ref, "enable_boundary")
             self.probes["boundary_of_refined_volume"] += 1
             names = ["f2c", "c2f", "c2c", "v2c", "c2e", "e2c", "e2f", "in_cell_face_index", "common_face", "other_face_side", "boundary_faces",
                      "interior_faces", "boundary_edges", "interior_edges", "boundary_vertices", "interior_vertices",
